@@ -48,6 +48,19 @@ def TObj(x: ty.Any, m: bool) -> int:
 
 
 @python.define
+def TNested(x: ty.Any, m: bool) -> int:
+    inner = x[0] if isinstance(x, tuple) else x["k"]
+    if m:
+        if isinstance(inner, list):
+            inner.append(99)
+        elif isinstance(inner, dict):
+            inner["new"] = 1
+        else:
+            inner[0] = 42
+    return 1
+
+
+@python.define
 def TArr(x: np.ndarray, m: bool) -> float:
     if m:
         x[0] = 42
@@ -81,7 +94,9 @@ if __name__ == "__main__":
     fpath = Path(tmp) / "in.txt"
     fpath.write_text("orig")
     mk = {"list": lambda: [1, 2], "dict": lambda: {"a": 1}, "set": lambda: {1, 2}, "object": lambda: Box([1]),
-          "array": lambda: np.zeros(3), "array-shape": lambda: np.zeros((2, 3))}
+          "array": lambda: np.zeros(3), "array-shape": lambda: np.zeros((2, 3)),
+          "tuple-list": lambda: ([1, 2], "z"), "tuple-dict": lambda: ({"a": 1}, "z"), "tuple-array": lambda: (np.zeros(3), "z"),
+          "dict-list": lambda: {"k": [1, 2]}}
     if kind.startswith("file"):
         val = File(fpath)
         task = (TFileAny if kind == "file-any" else TFileCopy)(f=val, m=mutates)
@@ -91,7 +106,8 @@ if __name__ == "__main__":
         before = repr(val) if kind != "object" else repr(val.items)
         if kind.startswith("array"):
             before = (val.shape, val.tolist())
-        task = {"list": TList, "dict": TDict, "set": TSet, "object": TObj, "array": TArr, "array-shape": TShape}[kind](x=val, m=mutates)
+        task = {"list": TList, "dict": TDict, "set": TSet, "object": TObj, "array": TArr, "array-shape": TShape,
+                "tuple-list": TNested, "tuple-dict": TNested, "tuple-array": TNested, "dict-list": TNested}[kind](x=val, m=mutates)
     pre = task._checksum
     cache = os.path.join(tmp, "cache")
     out = {"pre": pre}
